@@ -97,6 +97,13 @@ CHECKS = {
                      'operation), executed on the real BGP object with rib=True; after every operation Adj-RIB-In/Out and the per-family '
                      'received/sent version increments read back through the REST endpoints must equal the dictionary model\'s.',
                 ref='7 C19', note=E1_NOTE),
+    'C14': dict(level='exploration', engine='E3',
+                technique='small-scope exhaustive input-shape enumeration against a reference OPEN/NOTIFICATION/ROUTE-REFRESH codec',
+                text='Round trip through the agent\'s own encoder and decoder over every capability subset the encoder supports x AS / hold '
+                     '/ identifier boundaries (every hold value), and decoding of an independent encoder\'s OPEN for every subset of 12 '
+                     'capability kinds, permutations, rotations, unknown codes and 3 packagings; all 65536 NOTIFICATION code/subcode '
+                     'pairs x data lengths; ROUTE-REFRESH for all AFI/SAFI x both types; KEEPALIVE.',
+                ref='7 C14', note=E3_NOTE),
 }
 
 NOT_YET = 'check not built yet in this session (see DESIGN.md section 7 for the plan); not claimed'
